@@ -234,25 +234,3 @@ Proof.
   - intros q. unfold ser_nquads. rewrite blocks_quads. split; [auto|tauto].
 Qed.
 
-(* TriG without inline blank nodes *)
-Definition no_inline (D : dset) : Prop :=
-  forall q, In q (d_quads D) -> inlined D (snd (fst q)) = false.
-
-Lemma ser_trig_no_inline D : no_inline D ->
-  ser_trig D = blocks_of lab_std D (dedup N.eqb (trig_listed D)).
-Proof.
-  intros Hn. unfold ser_trig, blocks_of. apply map_ext. intros c. f_equal.
-  rewrite <- (map_id (g_triples D c)) at 2. apply map_ext_in. intros t Ht.
-  apply g_triples_In in Ht. specialize (Hn _ Ht). simpl in Hn.
-  unfold inl_triple. rewrite Hn. now destruct t.
-Qed.
-
-Lemma trig_roundtrip D : wfd D -> no_inline D -> iso (d_quads D) (parse_doc true (ser_trig D)).
-Proof.
-  intros [_ [_ Hc]] Hn. rewrite (ser_trig_no_inline D Hn). apply parse_relabel_iso.
-  - apply blocks_of_named, lab_std_named.
-  - intros q. rewrite blocks_quads. split; [|tauto]. intros Hq. split; [|auto].
-    apply (dedup_In N.eqb N.eqb_spec). unfold trig_listed. apply filter_In. split.
-    + unfold ctxs_plus_default. apply in_app_iff. left. auto.
-    + apply negb_true_iff. apply isnil_false. exists (fst q). apply g_triples_In. now destruct q.
-Qed.
